@@ -31,6 +31,7 @@ MENU = ['fail', 'error', 'fail@1', 'error@2', 'sub_skip', 'uxs', 'skip_dec', 'sk
         'skip_body', 'xfail', 'sub:1,0,1', 'sub:2,0,0', 'sub:1,1,0',
         'sub:0,0,2', 'setup_err', 'teardown_err', 'body+teardown',
         'fail+teardown', 'cleanup_err']
+HMENU = [{'s': 'sub:1,1,0', 'subm': 'page one\x0cpage two\u2028three\x85four\x1cfive\x0bsix'}]
 DMENU = [{'dt': 'string', 's': 'fail', 'dk': 'diff'}, {'dt': 'file', 's': 'fail', 'dk': 'exc'},
          {'dt': 'string', 's': 'pass'}, {'dt': 'file', 's': 'pass'}]
 MODEARGS = {'seq': [], 'j2': ['-j2'], 'j3': ['-j3']}
@@ -40,7 +41,7 @@ def cases(tier, seed):
     K = 1 if tier == 'quick' else 2
     vs = [0, 1, 2] if tier == 'quick' else [0, 1, 2, 3]
     modes = ['seq', 'j2'] if tier == 'quick' else ['seq', 'j2', 'j3']
-    menu = worlds.rot(MENU + DMENU, seed)
+    menu = worlds.rot(MENU + DMENU + HMENU, seed)
     for shape in ow.SHAPES:
         nslots = len(ow.SHAPES[shape][1])
         items = []
@@ -80,7 +81,7 @@ def run_case(case):
     res = runrt.run_world(spec, argv)
     sv = monitors.SpecView(spec)
     truth = ow.Truth(spec, res)
-    kinds = sorted({((s['dt'] + s['s']) if isinstance(s, dict) else s) for s in sc if s != 'pass'})
+    kinds = sorted({((s.get('dt', '') + s['s'] + ('+subm' if 'subm' in s else '')) if isinstance(s, dict) else s) for s in sc if s != 'pass'})
     sig = {'mode': mode, 'v': min(v, 1), 'rep': rep, 'scripts': kinds,
            'lf': sorted(h for d in lf.values() for h in d), 'bm': bm}
     viol = []
